@@ -179,6 +179,18 @@ def family(quick):
                                           {"a": "recvCall", "g": "T", "ctxMs": 1500, "wait": True}] + probes()
         sc.pop("wdMs", None)
         scs.append(sc)
+    # (10) a slow sent storage: the List call inside Close takes longer than the close timeout (never-acking broker). The wake-up of the
+    # close timeout falls between Close's look at its bounds and its wait - it must not be lost: Close returns once the storage answers
+    for k, (ctxms, hold) in enumerate(((3000, 600), (350, 600))):
+        steps = base + [{"a": "openUp", "obj": "U1", "qos": "reliable", "closeTimeoutMs": 300, "must": True}, {"a": "ackMode", "mode": "manual"},
+                        {"a": "write", "g": "T", "obj": "U1", "id": "A", "pts": [[1, 8]], "ctxMs": CTX, "wait": True},
+                        {"a": "flush", "g": "T", "obj": "U1", "ctxMs": CTX, "wait": True},
+                        {"a": "await", "ev": "BRecvChunk", "match": {"seq": 1}, "ms": 1500, "must": True},
+                        {"a": "holdHandler", "mode": "StorageList", "n": 1, "gate": "sl"},
+                        {"a": "closeUp", "g": "C", "obj": "U1", "ctxMs": ctxms, "boundMs": hold + 100},
+                        {"a": "await", "ev": "HandlerHeld", "match": {"handler": "StorageList"}, "ms": 1500, "must": True},
+                        {"a": "sleep", "ms": hold}, {"a": "release", "gate": "sl"}, {"a": "join", "obj": "C"}]
+        scs.append({"id": "C08/slowStorage/closeUp/%d" % k, "kind": "iscp", "conn": dict(conn, storage="logged"), "steps": steps + probes()})
     # (8) user hooks that call back into their own stream (State()): hooks run without any library lock, every call stays bounded
     for k, pol in enumerate(({"k": "none"}, {"k": "immediate"}, {"k": "size", "size": 8})):
         steps = base + [{"a": "openUp", "obj": "U1", "qos": "reliable", "policy": pol, "closeTimeoutMs": 400, "hookReenter": True, "must": True},
